@@ -106,33 +106,36 @@ impl<Wr: Write> XmlSerializer<Wr> {
         }
     }
 
-    #[inline(always)]
-    fn qual_name(&mut self, name: &QualName) -> io::Result<()> {
-        self.find_or_insert_ns(name);
-        write_qual_name(&mut self.writer, name)
-    }
-
-    #[inline(always)]
-    fn qual_attr_name(&mut self, name: &QualName) -> io::Result<()> {
-        self.find_or_insert_ns(name);
-        write_qual_name(&mut self.writer, name)
-    }
-
-    fn find_uri(&self, name: &QualName) -> bool {
-        let mut found = false;
-        for stack in self.namespace_stack.0.iter().rev() {
-            if let Some(Some(el)) = stack.get(&name.prefix) {
-                found = *el == name.ns;
-                break;
+    /// The namespace currently bound to `prefix` (`None` is the default namespace), if any
+    /// declaration for it is in scope. An empty namespace means "un-declared".
+    fn namespace_in_scope(&self, prefix: &Option<crate::Prefix>) -> Option<crate::Namespace> {
+        for map in self.namespace_stack.0.iter().rev() {
+            if let Some(binding) = map.get(prefix) {
+                return binding.clone();
             }
         }
-        found
+        None
     }
 
-    fn find_or_insert_ns(&mut self, name: &QualName) {
-        if (name.prefix.is_some() || !name.ns.is_empty()) && !self.find_uri(name) {
-            if let Some(last_ns) = self.namespace_stack.0.last_mut() {
-                last_ns.insert(name);
+    /// Makes sure that re-parsing the output resolves `name` to `name.ns`, by adding a
+    /// declaration to the element that is being started when the binding in scope differs.
+    fn declare_if_needed(&mut self, name: &QualName, is_attribute: bool) {
+        match name.prefix {
+            // Unprefixed attributes are in no namespace.
+            None if is_attribute => return,
+            // `xml` and `xmlns` are fixed.
+            Some(ref prefix) if &**prefix == "xml" || &**prefix == "xmlns" => return,
+            _ => {},
+        }
+        let in_scope = self
+            .namespace_in_scope(&name.prefix)
+            .filter(|ns| !ns.is_empty());
+        let wanted = Some(name.ns.clone()).filter(|ns| !ns.is_empty());
+        if in_scope != wanted {
+            if let Some(current) = self.namespace_stack.0.last_mut() {
+                if current.get(&name.prefix).is_none() {
+                    current.insert(name);
+                }
             }
         }
     }
@@ -147,8 +150,16 @@ impl<Wr: Write> Serializer for XmlSerializer<Wr> {
     {
         self.namespace_stack.push(NamespaceMap::empty());
 
+        // Every prefix used by the element or by one of its attributes has to be declared
+        // before the attributes are written.
+        let attrs: Vec<AttrRef<'a>> = attrs.collect();
+        self.declare_if_needed(&name, false);
+        for (attr_name, _) in attrs.iter() {
+            self.declare_if_needed(attr_name, true);
+        }
+
         self.writer.write_all(b"<")?;
-        self.qual_name(&name)?;
+        write_qual_name(&mut self.writer, &name)?;
         if let Some(current_namespace) = self.namespace_stack.0.last() {
             for (prefix, url_opt) in current_namespace.get_scope_iter() {
                 self.writer.write_all(b" xmlns")?;
@@ -169,7 +180,7 @@ impl<Wr: Write> Serializer for XmlSerializer<Wr> {
         }
         for (name, value) in attrs {
             self.writer.write_all(b" ")?;
-            self.qual_attr_name(name)?;
+            write_qual_name(&mut self.writer, name)?;
             self.writer.write_all(b"=\"")?;
             write_to_buf_escaped(&mut self.writer, value, true)?;
             self.writer.write_all(b"\"")?;
@@ -182,7 +193,7 @@ impl<Wr: Write> Serializer for XmlSerializer<Wr> {
     fn end_elem(&mut self, name: QualName) -> io::Result<()> {
         self.namespace_stack.pop();
         self.writer.write_all(b"</")?;
-        self.qual_name(&name)?;
+        write_qual_name(&mut self.writer, &name)?;
         self.writer.write_all(b">")
     }
 
